@@ -122,6 +122,18 @@ inline double integral_level(const Fn& f, size_t k) {
   for (size_t i = 0; i + 1 < xs.size(); ++i) s += piece_int(xs[i + 1] - xs[i], f.eval(k, xs[i]), f.eval(k, xs[i + 1]));
   return s;
 }
+// integral over R and supremum of every level 0..nlevels()-1 at once (one table of the function instead of one per level)
+inline void integrals_and_sups_of_levels(const Fn& f, std::vector<double>& integrals, std::vector<double>& sups) {
+  std::vector<double> xs = f.knots();
+  size_t nl = f.nlevels();
+  auto tab = table(f, xs, nl);
+  integrals.assign(nl, 0.0); sups.assign(nl, 0.0);
+  for (size_t k = 0; k < nl; ++k)
+    for (size_t i = 0; i < xs.size(); ++i) {
+      sups[k] = std::max(sups[k], tab[i][k]);
+      if (i + 1 < xs.size()) integrals[k] += piece_int(xs[i + 1] - xs[i], tab[i][k], tab[i + 1][k]);
+    }
+}
 // sum over levels of the integral of the (signed) p-th power, p a positive integer (what "integral of the p-th power" means)
 inline double integral_pow_all(const Fn& f, int p) {
   std::vector<double> xs = f.knots();
